@@ -18,6 +18,7 @@ RULE = ('crc16: every byte string of length 0..3 (2^24+65793 messages = every (r
         'messages (each single byte position set, lengths 4..4096). A case is non-trivial when its length >= 1; states = '
         'distinct messages fed to the real function; transitions = register transitions they exercise; '
         'traces = messages whose reference checksum was compared with the implementation')
+RULE += ' Sixth session: short-lived argument objects - every message of the families (all of length 1 and 2; lengths 3, 4, 8, 20, 64, 300 with every value of the first / middle / last byte) handed over as a temporary slice / concatenation / bytearray that dies after the call, and through one bytearray edited in place between the calls.'
 RULE += ' Fifth session: length alphabet 2^k-1, 2^k, 2^k+1 (k <= 18, thorough 20), 3*2^k, multiples of 65536 +-1 against the table form of the bitwise reference (tied to it by the self-test); every result is held and re-compared after the following calls.'
 LEVEL_TEXT = ('Complete enumeration through the public functions: crc16 on every byte string of length 0..3 (every (register, byte) '
               'transition of the 16-bit machine, which by induction decides all lengths for any implementation whose state is the '
@@ -42,7 +43,7 @@ def selftest():
 
 
 def REQUIRED_COVER(tier):
-    return {'crc16:len0', 'crc16:len3', 'crc32c:len0', 'crc32c:len2', 'crc32c:big', 'crc32c:long', 'lengths', 'held-results'}
+    return {'crc16:len0', 'crc16:len3', 'crc32c:len0', 'crc32c:len2', 'crc32c:big', 'crc32c:long', 'lengths', 'held-results', 'temporaries'}
 
 
 def shards(tier, seed):
@@ -61,6 +62,8 @@ def shards(tier, seed):
                                                                    [4, 5, 7, 8, 9, 15, 16, 17, 31, 32, 33, 34, 36, 63, 64, 65])]
     for p in range(8):
         out.append({'fn': 'shard_history', 'args': {'part': p, 'parts': 8, 'depth': 3 if tier == 'quick' else 4}})
+    for form in ('slice', 'concat', 'bytearray-temp', 'bytearray-inplace'):
+        out.append({'fn': 'shard_temporaries', 'args': {'form': form}})
     for p in range(16):
         out.append({'fn': 'shard_lengths', 'args': {'part': p, 'parts': 16}, 'prio': 8})
     return out + longs
@@ -194,6 +197,48 @@ def shard_short(rec):
     rec.covered('crc16:len0', 'crc32c:len0', 'crc32c:len2', 'crc32c:big')
     rec.sample({'fn': 'crc16', 'data': '3132', 'result': R.crc16(b'12').hex()})
     rec.outcome('short-ok')
+
+
+def shard_temporaries(rec, form):
+    """sixth session - argument objects with a short life: every message of a family is handed over as a TEMPORARY that dies right after the
+    call (the next one is usually allocated at the same address, with the same length), or through ONE mutable buffer edited in place between
+    the calls (same object, same length, other content).  Families: all messages of length 1 and 2, and for lengths 3, 4, 8, 20, 64, 300
+    every value of the first, of a middle and of the last byte."""
+    from pytoniq_core.crypto.crc import crc16, crc32c
+    fams = [[bytes([a]) for a in range(256)], [bytes([a, b]) for a in range(256) for b in range(256)]]
+    for L in (3, 4, 8, 20, 64, 300):
+        for pos in (0, L // 2, L - 1):
+            fams.append([bytes((i * 13 + L) % 256 if i != pos else v for i in range(L)) for v in range(256)])
+    n = 0
+    for fam in fams:
+        L = len(fam[0])
+        pad = bytes(L) + b'\xee'
+        shared = bytearray(L)
+        for name, f, ref in (('crc16', crc16, R.crc16), ('crc32c', crc32c, lambda d: R.crc32c(d, 'little'))):
+            for m in fam:
+                want = ref(m)
+                if form == 'slice':
+                    got = f((m + b'\xee')[:-1])
+                elif form == 'concat':
+                    got = f(m[:L // 2] + m[L // 2:] if L > 1 else bytes(bytearray(m)))
+                elif form == 'bytearray-temp':
+                    got = f(bytearray(m))
+                elif form == 'bytearray-inplace':
+                    shared[:] = m
+                    got = f(shared)
+                else:
+                    raise ValueError(form)
+                n += 1
+                if bytes(got) != want:
+                    rec.violation(f'{name}:temporary:{form}', f'{name} of the {L}-byte message {m.hex()[:80]} handed over as {form} (after other messages of the same length) '
+                                  f'= {bytes(got).hex()}, reference {want.hex()}', 'shard_temporaries', {'form': form})
+                    return
+    rec.case(f'temporaries:{form}', n)
+    rec.trace(n)
+    rec.trans(n)
+    rec.bulk(states=n, nontrivial=n)
+    rec.covered('temporaries')
+    rec.outcome('temporaries-ok')
 
 
 def shard_crc16_len3(rec, p0_lo, p0_hi):
